@@ -44,6 +44,13 @@ class TermMatch:
         self.term = None
         for r in f.returns():
             v = r.ast.value
+            if isinstance(v, ast.Name):
+                # `term = Term(...); ...; return term`
+                vals = f.lf.values_reaching(r.id, v.id)
+                built = [(s_, dv) for (s_, dv) in vals if dv is not None and is_call(dv, 'Term')]
+                if built:
+                    self.ret, self.term = f.cfg.nodes[built[0][0]], built[0][1]
+                    continue
             if is_call(v, 'Term'):
                 self.ret, self.term = r, v
         if self.term is None:
